@@ -314,6 +314,28 @@ pub fn weighted_c08(rng: &mut Rng, n: usize) -> (Vec<(f64, f64)>, DataMeta, Weig
     (xs.into_iter().zip(ws).collect(), meta, kind)
 }
 
+/// weights for C17: non-negative, positive values over 200 orders of magnitude (w^2 and
+/// (sum w)^2 stay clear of overflow/underflow), zeros anywhere
+pub fn weights_c17(rng: &mut Rng, n: usize) -> Vec<f64> {
+    let mode = rng.below(5);
+    let base = 10f64.powf(rng.f() * 200.0 - 100.0);
+    let zero_rate = if rng.chance(0.5) { 0.0 } else { rng.f() * 0.5 };
+    (0..n)
+        .map(|_| {
+            if rng.chance(zero_rate) {
+                return 0.0;
+            }
+            match mode {
+                0 => base,
+                1 => base * (0.5 + rng.f()),
+                2 => 10f64.powf(rng.f() * 200.0 - 100.0),
+                3 => base * 10f64.powf(rng.f() * 20.0 - 10.0).min(1e100 / base),
+                _ => 10f64.powf(rng.f() * 12.0 - 6.0),
+            }
+        })
+        .collect()
+}
+
 /// (x, y) pairs for C09: correlations from -1 to 1 incl. exactly collinear, independent offsets.
 pub fn pairs_c09(rng: &mut Rng, n: usize) -> (Vec<(f64, f64)>, DataMeta, u8) {
     let (xs, meta) = scalar_c01(rng, n);
